@@ -655,4 +655,217 @@ Section Tracker.
     - split; [reflexivity | apply incl_refl].
     - split; [reflexivity | apply incl_refl].
   Qed.
+
+  (* ================================================================================= 6. C14 *)
+  Definition mlu (tr : track) : Z * Z := (tr_mmsi tr, tr_lu tr).
+
+  Lemma nodup_app_l {B} (a b : list B) : NoDup (a ++ b) -> NoDup a.
+  Proof.
+    induction a as [|x a IH]; simpl; [constructor|]. intros H. inversion H as [|? ? N ND]; subst. constructor; [|auto].
+    intros I. apply N. apply in_or_app. now left.
+  Qed.
+
+  Lemma nodup_app_disj {B} (a b : list B) x : NoDup (a ++ b) -> In x a -> In x b -> False.
+  Proof.
+    induction a as [|y a IH]; simpl; [tauto|]. intros H [->|I] J; inversion H as [|? ? N ND]; subst.
+    - apply N. apply in_or_app. now right.
+    - now apply IH.
+  Qed.
+
+  Lemma top_n_of_split n (all r rest : list (Z * Z)) :
+    Permutation all (r ++ rest) -> NoDup (map fst all) ->
+    (forall x y, In x r -> In y rest -> snd y <= snd x) ->
+    Z.of_nat (length r) = Z.min n (Z.of_nat (length all)) -> sp_top_n n all r.
+  Proof.
+    intros P ND LE LEN. unfold sp_top_n.
+    assert (ND2 : NoDup (map fst r ++ map fst rest)).
+    { rewrite <- map_app. eapply Permutation_NoDup; [apply Permutation_map, P | assumption]. }
+    split; [assumption|]. split; [now apply nodup_app_l in ND2|]. split.
+    - intros x I. apply (Permutation_in _ (Permutation_sym P)). apply in_or_app. now left.
+    - intros x y Ix Iy N. apply (Permutation_in _ P) in Iy. apply in_app_or in Iy. destruct Iy as [Iy|Iy]; [|auto].
+      exfalso. apply N. now apply in_map.
+  Qed.
+
+  Lemma enum_take_firstn (L : list track) : forall n i, trk_enum_take n i L = firstn (Z.to_nat (n - i)) L.
+  Proof.
+    induction L as [|tr r IH]; intros n i; simpl; [now rewrite firstn_nil|].
+    destruct (Z.leb_spec n i) as [Le|Gt].
+    - replace (Z.to_nat (n - i)) with O by lia. reflexivity.
+    - replace (Z.to_nat (n - i)) with (S (Z.to_nat (n - (i + 1)))) by lia. simpl. now rewrite IH.
+  Qed.
+
+  Lemma values_mmsi_keys (st : tracker) : inv st -> map (@tr_mmsi V) (idict_values (t_tracks st)) = keys (t_tracks st).
+  Proof.
+    intros I. unfold idict_values, keys. rewrite map_map. apply map_ext_in. intros [k tr] H. simpl.
+    now apply (inv_key _ I).
+  Qed.
+
+  Lemma mlu_fst (l : list track) : map fst (map mlu l) = map (@tr_mmsi V) l.
+  Proof. rewrite map_map. reflexivity. Qed.
+
+  Theorem n_latest_correct (st : tracker) n : reachable st -> 0 <= n ->
+    sp_top_n n (map mlu (trk_tracks st)) (map mlu (trk_n_latest_tracks st n)) /\
+    (t_ordered st = false -> sp_newest_first (map mlu (trk_n_latest_tracks st n))) /\
+    incl (trk_n_latest_tracks st n) (trk_tracks st).
+  Proof.
+    intros R Hn. apply reachable_inv in R. unfold trk_n_latest_tracks, trk_tracks, trk_tracks_ordered_after_insertion.
+    set (vals := idict_values (t_tracks st)).
+    assert (LV : length (t_tracks st) = length vals) by (unfold vals, idict_values; now rewrite map_length).
+    rewrite LV. set (len := Z.of_nat (length vals)).
+    assert (NDV : NoDup (map fst (map mlu vals))).
+    { rewrite mlu_fst. unfold vals. rewrite values_mmsi_keys by assumption. apply R. }
+    destruct (t_ordered st) eqn:EO.
+    - (* ordered: the last n of the insertion order, which is sorted by last_updated *)
+      unfold py_slice_from. fold len. replace (len - Z.min n len <? 0) with false by (symmetry; apply Z.ltb_ge; lia).
+      set (k := Z.to_nat (len - Z.min n len)).
+      assert (SS : StronglySorted le_lu vals).
+      { unfold vals, idict_values. apply (proj1 (@ss_map _ _ snd le_lu (t_tracks st))). now apply (inv_sorted _ R). }
+      split; [|split; [discriminate|]].
+      + apply top_n_of_split with (rest := map mlu (firstn k vals)).
+        * rewrite <- (firstn_skipn k vals) at 1. rewrite map_app. apply Permutation_app_comm.
+        * assumption.
+        * intros x y Ix Iy. apply in_map_iff in Ix. destruct Ix as (tx & <- & Ix).
+          apply in_map_iff in Iy. destruct Iy as (ty & <- & Iy). simpl.
+          apply (ss_split le_lu k vals ty tx SS Iy Ix).
+        * rewrite !map_length, skipn_length. unfold k, len. lia.
+      + intros x Ix. rewrite <- (firstn_skipn k vals). apply in_or_app. now right.
+    - (* unordered: the first n of the tracks sorted newest first *)
+      rewrite enum_take_firstn. rewrite Z.sub_0_r. set (k := Z.to_nat (Z.min n len)).
+      set (L := rev (trk_sorted vals)).
+      assert (PL : Permutation vals L).
+      { unfold L. rewrite <- Permutation_rev. apply sorted_perm. }
+      assert (SL : StronglySorted (fun a b => le_lu b a) L) by (apply ss_rev, sorted_ss).
+      split; [|split].
+      + apply top_n_of_split with (rest := map mlu (skipn k L)).
+        * rewrite <- map_app, firstn_skipn. now apply Permutation_map.
+        * assumption.
+        * intros x y Ix Iy. apply in_map_iff in Ix. destruct Ix as (tx & <- & Ix).
+          apply in_map_iff in Iy. destruct Iy as (ty & <- & Iy). simpl.
+          apply (ss_split (fun a b => le_lu b a) k L tx ty SL Ix Iy).
+        * rewrite !map_length, firstn_length. rewrite <- (Permutation_length PL). unfold k, len. lia.
+      + intros _. unfold sp_newest_first. apply (proj1 (@ss_map _ _ mlu (fun a b => snd b <= snd a) (firstn k L))).
+        simpl. apply ss_firstn. exact SL.
+      + intros x Ix. apply (Permutation_in _ (Permutation_sym PL)). rewrite <- (firstn_skipn k L).
+        apply in_or_app. now left.
+  Qed.
+
+  (* ================================================================================= 7. C15 *)
+  Definition abs_ev (e : trk_event) : sp_event :=
+    match e with CREATED => SCreated | UPDATED => SUpdated | DELETED => SDeleted end.
+  (* the propagate calls of an operation as the (event, mmsi) trace the specification talks about *)
+  Definition abs_calls (cs : list call) : list (sp_event * Z) := map (fun c => (abs_ev (fst c), tr_mmsi (snd c))) cs.
+
+  Lemma events_of_calls m (cs : list call) :
+    sp_events_of m (abs_calls cs) = map (fun c => abs_ev (fst c)) (calls_for m cs).
+  Proof.
+    unfold sp_events_of, abs_calls, calls_for. induction cs as [|c r IH]; simpl; [reflexivity|].
+    rewrite (Z.eqb_sym (tr_mmsi (snd c)) m). destruct (m =? tr_mmsi (snd c)); simpl; now rewrite IH.
+  Qed.
+
+  (* the target of an accepted update *)
+  Definition step_target (op : trk_op V) (res : trk_result V) : option Z :=
+    match op with
+    | OpUpdate _ msg _ => match r_exn res with None => Some (m_mmsi msg) | Some _ => None end
+    | _ => None
+    end.
+
+  Lemma mem_without {A} p (d : idict A) k : idict_mem (without p d) k = negb (p k) && idict_mem d k.
+  Proof. unfold idict_mem. rewrite get_without. destruct (p k); reflexivity. Qed.
+
+  Lemma cleanup_events (d : idict track) del (calls : list call) m :
+    (forall m, calls_for m calls = if inset del m then deleted_call d m else []) ->
+    map (fun c => abs_ev (fst c)) (calls_for m calls) =
+    sp_expected_events None m (idict_mem d m) (idict_mem (without (inset del) d) m).
+  Proof.
+    intros C. rewrite C, mem_without. unfold sp_expected_events, deleted_call, idict_mem.
+    destruct (inset del m); simpl; destruct (idict_get d m); reflexivity.
+  Qed.
+
+  Lemma expected_other m0 m b a : m <> m0 -> sp_expected_events (Some m0) m b a = sp_expected_events None m b a.
+  Proof. intros N. unfold sp_expected_events. apply Z.eqb_neq in N. now rewrite N. Qed.
+
+  Theorem step_events (st : tracker) op m : inv st ->
+    let res := trk_step nattrs st op in
+    sp_events_of m (abs_calls (r_calls res)) =
+      sp_expected_events (step_target op res) m (idict_mem (t_tracks st) m) (idict_mem (t_tracks (r_state res)) m) /\
+    (idict_mem (t_tracks st) m = false -> step_target op res <> Some m ->
+     idict_mem (t_tracks (r_state res)) m = false).
+  Proof.
+    intros I res. subst res. rewrite events_of_calls.
+    assert (SAME : forall b, [] = sp_expected_events None m b b) by (intros []; reflexivity).
+    destruct op as [now msg ts|now|m1|ev cb|ev cb]; simpl.
+    - destruct (update_spec st now msg ts I) as [[_ E]|(_ & I2 & E)]; rewrite E; simpl; [split; [apply SAME | auto]|].
+      set (m0 := m_mmsi msg) in *. set (new := trk_msg_to_track nattrs msg ts now) in *.
+      destruct (upd_result_facts st m0 new I) as (Rm & _); [apply msg_to_track_facts | apply msg_to_track_facts|].
+      destruct (after_insert_cfg st m0 new) as (_ & _ & _ & Etr).
+      destruct (cleanup_spec _ now I2) as (del & o' & calls & Ec & _ & C & _). rewrite Ec. simpl.
+      pose proof (cleanup_events _ _ _ m C) as CE. rewrite Rm. rewrite Etr in CE |- *.
+      assert (M2 : idict_mem (without (Z.eqb m0) (t_tracks st) ++ [(m0, upd_result st m0 new)]) m
+                   = (m =? m0) || idict_mem (t_tracks st) m).
+      { unfold idict_mem. rewrite get_app_single, get_without, (Z.eqb_sym m0 m).
+        destruct (m =? m0); simpl; [reflexivity|]. destruct (idict_get (t_tracks st) m); reflexivity. }
+      rewrite M2 in CE. destruct (Z.eqb_spec m m0) as [->|N]; simpl in *.
+      + rewrite CE. split; [|congruence]. unfold upd_event.
+        destruct (idict_mem (t_tracks st) m0); reflexivity.
+      + rewrite CE. split; [reflexivity|]. intros B _. rewrite mem_without, M2.
+        rewrite B. apply andb_false_r.
+    - destruct (cleanup_spec _ now I) as (del & o' & calls & Ec & _ & C & _). rewrite Ec. simpl.
+      split; [now apply cleanup_events|]. intros B _. rewrite mem_without, B. apply andb_false_r.
+    - rewrite pop_track_spec by apply I. destruct (idict_get (t_tracks st) m1) as [tr|] eqn:G; simpl; [|split; [apply SAME | auto]].
+      rewrite mem_without. rewrite (inv_key _ I _ _ (get_some_in _ _ _ G)). rewrite (Z.eqb_sym m1 m).
+      destruct (Z.eqb_spec m m1) as [->|N]; simpl.
+      + unfold idict_mem. rewrite G. split; [reflexivity | discriminate].
+      + split; [apply SAME | auto].
+    - split; [apply SAME | auto].
+    - split; [apply SAME | auto].
+  Qed.
+
+  Lemma auto_run_app a l1 l2 :
+    sp_auto_run a (l1 ++ l2) = match sp_auto_run a l1 with Some a' => sp_auto_run a' l2 | None => None end.
+  Proof.
+    revert a. induction l1 as [|e r IH]; intros a; simpl; [reflexivity|]. destruct (sp_auto_step a e); [apply IH | reflexivity].
+  Qed.
+
+  Lemma events_of_app m t1 t2 : sp_events_of m (t1 ++ t2) = sp_events_of m t1 ++ sp_events_of m t2.
+  Proof. unfold sp_events_of. now rewrite filter_app, map_app. Qed.
+
+  Lemma expected_run target m b a : (b = false -> target <> Some m -> a = false) ->
+    sp_auto_run b (sp_expected_events target m b a) = Some a.
+  Proof.
+    intros H. unfold sp_expected_events. destruct target as [m0|].
+    - destruct (Z.eqb_spec m m0) as [->|N].
+      + destruct b, a; reflexivity.
+      + destruct b; [destruct a; reflexivity|]. rewrite H; [reflexivity | reflexivity | congruence].
+    - destruct b; [destruct a; reflexivity|]. rewrite H; [reflexivity | reflexivity | discriminate].
+  Qed.
+
+  (* all events of a run, in order *)
+  Definition run_events (results : list (trk_result V)) : list (sp_event * Z) :=
+    flat_map (fun r => abs_calls (r_calls r)) results.
+
+  Lemma run_alive m : forall h (st : tracker) trace0, inv st ->
+    sp_alive m trace0 = Some (idict_mem (t_tracks st) m) ->
+    sp_alive m (trace0 ++ run_events (snd (trk_run nattrs st h))) =
+      Some (idict_mem (t_tracks (fst (trk_run nattrs st h))) m).
+  Proof.
+    induction h as [|op r IH]; intros st trace0 I A; simpl.
+    - now rewrite app_nil_r.
+    - destruct (trk_run nattrs (r_state (trk_step nattrs st op)) r) as [st' rs] eqn:ER. simpl.
+      rewrite app_assoc. specialize (IH (r_state (trk_step nattrs st op)) (trace0 ++ abs_calls (r_calls (trk_step nattrs st op)))).
+      rewrite ER in IH. simpl in IH. apply IH; [now apply step_inv|].
+      unfold sp_alive in *. rewrite events_of_app, auto_run_app, A.
+      destruct (step_events st op m I) as (E & K). rewrite E. now apply expected_run.
+  Qed.
+
+  (* C15: the events of every MMSI stay in (CREATED UPDATED* DELETED)* and "alive" = "has a track" *)
+  Theorem events_lifecycle ttl ordered h m :
+    sp_alive m (run_events (snd (trk_run nattrs (trk_init ttl ordered) h))) =
+      Some (idict_mem (t_tracks (fst (trk_run nattrs (trk_init ttl ordered) h))) m).
+  Proof. apply (run_alive m h (trk_init ttl ordered) []); [apply inv_init | reflexivity]. Qed.
+
+  Lemma run_reachable : forall h (st : tracker), reachable st -> reachable (fst (trk_run nattrs st h)).
+  Proof.
+    induction h as [|op r IH]; intros st R; simpl; [assumption|].
+    specialize (IH _ (reach_step st op R)). destruct (trk_run nattrs (r_state (trk_step nattrs st op)) r). exact IH.
+  Qed.
 End Tracker.
